@@ -123,7 +123,7 @@ Definition thr_ok (cl : list call) (seen : list nat) (t : nat) (x : Z * Z) : boo
       else if code =? 1 then memb t seen && match o with OErr => true | _ => false end
       else if code =? 2 then memb t seen && match o with OPanic => true | _ => false end
       else if code =? 10 then true
-      else if code =? 11 then negb (memb t seen) || true
+      else if code =? 11 then true
       else false
   end.
 
